@@ -32,6 +32,9 @@ import (
 	"github.com/B1NARY-GR0UP/originium/utils"
 )
 
+// suffix of a sstable file which is not complete yet
+const _tmpSuffix = ".tmp"
+
 type levelManager struct {
 	mu sync.Mutex
 
@@ -81,6 +84,12 @@ func (lm *levelManager) recover() int64 {
 	for _, file := range files {
 		if !file.IsDir() && path.Ext(file.Name()) == ".db" {
 			dbFiles = append(dbFiles, file.Name())
+		}
+		// incomplete sstable left by a crash
+		if !file.IsDir() && path.Ext(file.Name()) == _tmpSuffix {
+			if err = os.Remove(path.Join(lm.dir, file.Name())); err != nil {
+				lm.logger.Panicf("failed to remove incomplete sstable %s: %v", file.Name(), err)
+			}
 		}
 	}
 
@@ -285,29 +294,7 @@ func (lm *levelManager) flushToL0(kvs []types.Entry) error {
 	lm.levels[0].PushBack(th)
 
 	// file name format: level-idx.db
-	fd, err := os.OpenFile(lm.fileName(0, th.levelIdx), os.O_CREATE|os.O_RDWR|os.O_TRUNC, 0600)
-	if err != nil {
-		return err
-	}
-	defer func() {
-		if err = fd.Close(); err != nil {
-			lm.logger.Errorf("failed to close file: %v", err)
-		}
-	}()
-
-	// write sstable
-	_, err = fd.Write(tableBytes)
-	if err != nil {
-		return err
-	}
-
-	// os sync
-	if err = fd.Sync(); err != nil {
-		lm.logger.Errorf("failed to sync file: %v", err)
-		return err
-	}
-
-	return nil
+	return lm.writeTable(lm.fileName(0, th.levelIdx), tableBytes)
 }
 
 func (lm *levelManager) checkAndCompact() {
@@ -421,6 +408,11 @@ func (lm *levelManager) compactL0() {
 		dataBlockIndex: dataBlockIndex,
 	}
 
+	// write new sstable, old sstables must not be deleted before it is complete and synced
+	if err := lm.writeTable(lm.fileName(1, th.levelIdx), tableBytes); err != nil {
+		lm.logger.Panicf("failed to write sstable: %v", err)
+	}
+
 	// update index
 	// add new index to L1
 	lm.levels[1].PushBack(th)
@@ -445,22 +437,6 @@ func (lm *levelManager) compactL0() {
 		if err := os.Remove(lm.fileName(1, e.Value.(tableHandle).levelIdx)); err != nil {
 			lm.logger.Panicf("failed to delete old sstable: %v", err)
 		}
-	}
-
-	// write new sstable
-	fd, err := os.OpenFile(lm.fileName(1, th.levelIdx), os.O_CREATE|os.O_RDWR|os.O_TRUNC, 0600)
-	if err != nil {
-		lm.logger.Panicf("failed to open sstable: %v", err)
-	}
-	defer func() {
-		if err = fd.Close(); err != nil {
-			lm.logger.Errorf("failed to close file: %v", err)
-		}
-	}()
-
-	_, err = fd.Write(tableBytes)
-	if err != nil {
-		lm.logger.Panicf("failed to write sstable: %v", err)
 	}
 }
 
@@ -508,6 +484,11 @@ func (lm *levelManager) compactLN(n int) {
 		dataBlockIndex: dataBlockIndex,
 	}
 
+	// write new sstable, old sstables must not be deleted before it is complete and synced
+	if err := lm.writeTable(lm.fileName(n+1, th.levelIdx), tableBytes); err != nil {
+		lm.logger.Panicf("failed to write sstable: %v", err)
+	}
+
 	// update index
 	// add new index to LN+1
 	lm.levels[n+1].PushBack(th)
@@ -528,22 +509,6 @@ func (lm *levelManager) compactLN(n int) {
 		if err := os.Remove(lm.fileName(n+1, e.Value.(tableHandle).levelIdx)); err != nil {
 			lm.logger.Panicf("failed to delete old sstable: %v", err)
 		}
-	}
-
-	// write new sstable
-	fd, err := os.OpenFile(lm.fileName(n+1, th.levelIdx), os.O_CREATE|os.O_RDWR|os.O_TRUNC, 0600)
-	if err != nil {
-		lm.logger.Panicf("failed to open sstable: %v", err)
-	}
-	defer func() {
-		if err = fd.Close(); err != nil {
-			lm.logger.Errorf("failed to close file: %v", err)
-		}
-	}()
-
-	_, err = fd.Write(tableBytes)
-	if err != nil {
-		lm.logger.Panicf("failed to write sstable: %v", err)
 	}
 }
 
@@ -613,6 +578,36 @@ func (lm *levelManager) overlapLN(level int, start, end string) []*list.Element 
 	}
 
 	return overlaps
+}
+
+// writeTable writes and syncs a sstable under a temporary name and renames it afterwards,
+// so that a file named level-idx.db is always a complete sstable
+func (lm *levelManager) writeTable(name string, tableBytes []byte) error {
+	tmp := name + _tmpSuffix
+
+	fd, err := os.OpenFile(tmp, os.O_CREATE|os.O_RDWR|os.O_TRUNC, 0600)
+	if err != nil {
+		return err
+	}
+
+	// write sstable
+	if _, err = fd.Write(tableBytes); err != nil {
+		_ = fd.Close()
+		return err
+	}
+
+	// os sync
+	if err = fd.Sync(); err != nil {
+		lm.logger.Errorf("failed to sync file: %v", err)
+		_ = fd.Close()
+		return err
+	}
+
+	if err = fd.Close(); err != nil {
+		return err
+	}
+
+	return os.Rename(tmp, name)
 }
 
 func (lm *levelManager) fileName(level, idx int) string {
